@@ -1412,6 +1412,20 @@ def array_probe_stages(rep, prefix, tcfg, what, probes, maxel_q=4, maxel_t=6, ed
     return quick
 
 
+def map_probe_refs_stage(rep, prefix, tcfg, what, probes):
+    """Two keys under every digest assignment over {0,1}^4, values of 12 and 120 bytes (120: stored in a slab of its own, the element is
+    a reference): single elements, inline groups and full-collision lists holding references; probes at the end of every history."""
+    quick = rep.tier == "quick"
+    consts = {"EmitEdges": "TRUE", "Limit": 255, "Keys": keyset(2), "VSizes": "{12, 120}"}
+    files, n, total = model_histories(rep, "MC_Map.tla", "MC_Map.cfg", consts,
+                                      "MC_Map 2 keys, values {12, 120 (reference)}, all digest assignments over {0,1}^4 (probes at the end of every history)",
+                                      {"cfg": {"T": 256, "limit": 255}}, (lambda ops, key: frac(key + rep.seed, 1, 4)) if quick else None, prefix + "-mmcr")
+    base = len(rep.distinct)
+    rep.distinct.update(range(base, base + n))
+    hist_stage(rep, prefix + "-map-refs-edges", probe_cmd("map-run", probes, rep), "map", "MapTrace.tla", "MapTrace_%s.cfg" % tcfg, files, "edge", what)
+    rep.stages[prefix + "-map-refs-edges"]["selected_of_distinct_histories"] = [n, total]
+
+
 def map_probe_stages(rep, prefix, tcfg, what, probes, walks=True, vsizes="{12, 40, 60}"):
     quick = rep.tier == "quick"
     consts = {"EmitEdges": "TRUE", "Limit": 255, "Keys": keyset(3)}
@@ -1478,6 +1492,8 @@ def check_C17(rep):
     rep.distinct.update(range(base, base + n))
     hist_stage(rep, "c17-array-streams", probe_cmd("array-run", "batch", rep), "array", "ArrayTrace.tla", "ArrayTrace_C17.cfg", files, "edge", what)
     map_probe_stages(rep, "c17", "C17", what, "batch,copy", vsizes="{12, 40, 70, 95}")
+    # full-collision lists and inline groups whose values are references (the copy must not be offered)
+    map_probe_refs_stage(rep, "c17", "C17", what, "batch,copy")
     # sources with collision groups inside multi-slab trees (composed layer C): bulk build and copy of every explored shape
     map_full_stage(rep, "MapTrace_C17.cfg", what, "c17", probes="batch,copy", scale=2)
     # short growth-only walks with element sizes on the edges (an element at the inline limit at the tail of a slab,
